@@ -9,10 +9,12 @@ printed by TLC (0 = not byte-for-byte an entry of the table); TLC evaluates the
 clauses (spec/Chronicle_Trace.tla).
 
 usage: python -m harness.chronicle_h <jobs.json> <out.ndjson>
- jobs.json = {"jobs": [ {"id": .., "table": {cal, tod, at, run, ok}, "appends": [entry id ..],
+ jobs.json = {"jobs": [ {"id": .., "table": {cal, tod, at, run, st, zone}, "appends": [entry id ..],
                          "strform": bool,
-                         "queries": [[after, before, limit, ok(0/1), now, api(0/1)], ..]} ]}
- instants are ordinals (day-1)*len(tod) + (tod-1); -1 = argument not given.
+                         "queries": [[after, before, limit, ok(0/1), now, zone, api(0/1)], ..]} ]}
+ instants are ordinals (day-1)*len(tod) + (tod-1); -1 = argument not given.  zone = index
+ (from 1) into table.zone (UTC offsets in minutes): the bounds are handed over as tz-aware
+ datetimes / ISO strings written with that offset - the same instants.
 
  VERIF_MUTANT=<name>   in-memory mutant of the real functions (binding demonstration,
                        never written to /repo): append_overwrite append_twice find_le
@@ -104,10 +106,16 @@ class World:
             self.ident[json.dumps(self.stored(e), sort_keys=True)] = e
         assert len(self.ident) == len(table['at'])
 
-    def inst(self, i):
+    def inst(self, i, zone=1):
         y, m, d = self.cal[i // self.nt]
         hh, mm, ss = self.tod[i % self.nt]
-        return _dt.datetime(y, m, d, hh, mm, ss, tzinfo=UTC)
+        t = _dt.datetime(y, m, d, hh, mm, ss, tzinfo=UTC)
+        off = self.table['zone'][zone - 1]
+        if off:
+            z = t.astimezone(_dt.timezone(_dt.timedelta(minutes=off)))
+            assert z == t and z.utcoffset() == _dt.timedelta(minutes=off)
+            return z
+        return t
 
     def timing(self, e):
         done = self.inst(self.table['at'][e - 1])
@@ -119,7 +127,7 @@ class World:
         return {
             'changeset': f'{e:02d}' * 20,
             'runid': self.table['run'][e - 1],
-            'status': 'success' if self.table['ok'][e - 1] else 'failure',
+            'status': self.table['st'][e - 1],
             'target': f'T{e:02d}',
             'task': f'pkg{e:02d}.alg',
             'timing': {k: str(v) for k, v in t.items()} if strform else t,
@@ -163,7 +171,7 @@ class World:
         return files
 
 
-NOARGS = {'e': 0, 'after': -1, 'before': -1, 'limit': -1, 'ok': True, 'now': -1}
+NOARGS = {'e': 0, 'after': -1, 'before': -1, 'limit': -1, 'ok': True, 'now': -1, 'zone': 1}
 
 
 def run_job(job, corrupt):
@@ -188,7 +196,7 @@ def run_job(job, corrupt):
             files[0]['ents'] = files[0]['ents'][1:]
         steps.append({'ev': 'append', 'args': dict(NOARGS, e=e), 'st': {'files': files}, 'obs': {'res': [], 'err': err}})
     nres = 0
-    for after, before, limit, ok, now, via_api in job['queries']:
+    for after, before, limit, ok, now, zone, via_api in job['queries']:
         Clock.current = w.inst(now)
         reads = Clock.reads
         err, res = '', []
@@ -196,8 +204,8 @@ def run_job(job, corrupt):
             if via_api:
                 fn = api.succeeded if ok else api.failed
                 body = fn(
-                    after=[w.inst(after).isoformat()] if after >= 0 else None,
-                    before=[w.inst(before).isoformat()] if before >= 0 else None,
+                    after=[w.inst(after, zone).isoformat()] if after >= 0 else None,
+                    before=[w.inst(before, zone).isoformat()] if before >= 0 else None,
                     limit=[str(limit)] if limit >= 0 else None,
                 )
                 body = json.loads(body)
@@ -208,8 +216,8 @@ def run_job(job, corrupt):
             else:
                 res = w.project(
                     chronicle.find(
-                        after=w.inst(after) if after >= 0 else None,
-                        before=w.inst(before) if before >= 0 else None,
+                        after=w.inst(after, zone) if after >= 0 else None,
+                        before=w.inst(before, zone) if before >= 0 else None,
                         limit=limit if limit >= 0 else None,
                         succeeded=bool(ok),
                     )
@@ -225,7 +233,7 @@ def run_job(job, corrupt):
         steps.append(
             {
                 'ev': 'api' if via_api else 'find',
-                'args': {'e': 0, 'after': after, 'before': before, 'limit': limit, 'ok': bool(ok), 'now': now},
+                'args': {'e': 0, 'after': after, 'before': before, 'limit': limit, 'ok': bool(ok), 'now': now, 'zone': zone},
                 'st': {'files': []},
                 'obs': {'res': res, 'err': err},
             }
